@@ -6,7 +6,14 @@ request  {"op":"run","eps":[[uid,name,pattern|null,mm]…],"geps":[[uid,lang,tar
   op  = ["reg_lang",uid,name,pattern|null,mm] | ["lang",name] | ["lang_keys"] | ["clear_langs"]
       | ["mm",name,kw] | ["files",f] | ["file",f] | ["mms_file",f] | ["mm_file",f,kw]
       | ["reg_gen",uid,lang,target] | ["gen",lang,target,any] | ["gen_keys"] | ["clear_gens"]
-answer   {"res":[r…]}
+answer   {"res":[r…],"live":[uid…],"glive":[uid…],"hits":[[j,i]…],"um":[[i,uid|null]…],"mms":[[i,[uid…]]…],"own":[[i,uid|null]…]}
+  `res` is the machine (`Reg.run`); the other fields are the *history-level* notions the C26 theorems are
+  stated in, computed without the machine: `live` / `gLive` after the history; `hits` = pairs of request
+  positions for which `C26_cache_hit_until` / `C26_cache_hit_file` say "if call j answered a meta-model,
+  the argument-less call i answers the same object" (`sparesAll` over the calls in between); `um` = for
+  every `mm_file` call the one live language accepting the file (`UniqueMatch`, `C26_mm_for_file`);
+  `mms` = for every `mms_file` call the live languages accepting the file (`C26_mms_for_file`);
+  `own` = for every `mm` call the live language of that name up to case (`C26_cache_not_stale`, `C26_cache_fresh`)
   r   = ["unit"] | ["desc",uid,name,pattern|null] | ["descs",[[uid,name,pattern]…]] | ["keys",[k…]]
       | ["mm",m] | ["mms",[m…]] | ["gen",uid] | ["gkeys",[[l,t]…]] | ["reg_error"] | ["type_error"]
   m   = ["given",uid] | ["made",serial,by,kw]
@@ -79,6 +86,59 @@ def resJson : Res → Json
   | .regError => Json.arr #["reg_error"]
   | .typeError => Json.arr #["type_error"]
 
+/-! history-level predictions (functions of the history alone; no `step`) -/
+
+/-- the live languages before each call -/
+def livesBefore (E : Env) (ops : List Op) : List (List LangDesc) :=
+  (ops.foldl (fun (acc : List (List LangDesc) × List LangDesc) op =>
+    (acc.1 ++ [acc.2], liveStep E acc.2 op)) ([], E.eps)).1
+
+/-- the `d` with `UniqueMatch E l f d`, if any -/
+def uniqueOf (E : Env) (l : List LangDesc) (f : String) : Option LangDesc :=
+  l.find? fun d => patMatches E f d && l.all fun d' => !patMatches E f d' || d' == d
+
+/-- folded name and kwargs of a single-language meta-model request -/
+def keyOf (E : Env) (l : List LangDesc) : Op → Option (String × Nat)
+  | .mmLang n kw => some (E.lower n, kw)
+  | .mmForFile f kw => (uniqueOf E l f).map fun d => (E.lower d.name, kw)
+  | _ => none
+
+def hitPairs (E : Env) (ops : List Op) : List (Nat × Nat) :=
+  let lv := livesBefore E ops
+  (List.range ops.length).filterMap fun i =>
+    match keyOf E (lv.getD i []) (ops.getD i .langKeys) with
+    | some (k, 0) =>
+      match (List.range i).reverse.find? (fun j =>
+          match keyOf E (lv.getD j []) (ops.getD j .langKeys) with
+          | some (k', _) => k' == k
+          | none => false) with
+      | some j =>
+        if sparesAll E k (lv.getD j []) ((ops.drop (j + 1)).take (i - j - 1)) then some (j, i) else none
+      | none => none
+    | _ => none
+
+def predictions (E : Env) (ops : List Op) : List (String × Json) :=
+  let lv := livesBefore E ops
+  let at_ := (List.range ops.length).zip (ops.zip lv)
+  let um := at_.filterMap fun (i, op, l) =>
+    match op with
+    | .mmForFile f _ =>
+      some (Json.arr #[toJson i, match uniqueOf E l f with | some d => toJson d.uid | none => Json.null])
+    | _ => none
+  let mms := at_.filterMap fun (i, op, l) =>
+    match op with
+    | .mmsForFile f => some (Json.arr #[toJson i, toJson ((l.filter (patMatches E f)).map (·.uid))])
+    | _ => none
+  let own := at_.filterMap fun (i, op, l) =>
+    match op with
+    | .mmLang n _ =>
+      some (Json.arr #[toJson i, match l.find? (fun d => E.lower d.name == E.lower n) with
+                                 | some d => toJson d.uid | none => Json.null])
+    | _ => none
+  [("own", Json.arr own.toArray), ("live", toJson ((live E ops).map (·.uid))), ("glive", toJson ((gLive E ops).map (·.uid))),
+   ("hits", Json.arr ((hitPairs E ops).map fun p => Json.arr #[toJson p.1, toJson p.2]).toArray),
+   ("um", Json.arr um.toArray), ("mms", Json.arr mms.toArray)]
+
 def handle (j : Json) : Json :=
   match getStr? j "op" with
   | some "run" =>
@@ -88,7 +148,7 @@ def handle (j : Json) : Json :=
     match eps, geps, ops with
     | some eps, some geps, some ops =>
       let r := run (asciiEnv eps geps) St.init ops
-      Json.mkObj [("res", Json.arr (r.2.map resJson).toArray)]
+      Json.mkObj (("res", Json.arr (r.2.map resJson).toArray) :: predictions (asciiEnv eps geps) ops)
     | _, _, _ => badOp
   | some "glob" =>
     match getStr? j "pat", getStr? j "file" with
